@@ -3,7 +3,7 @@
 patch, the pinned suite still passes with the patch.  Validated ones are copied to /verif/seeded/<id>/."""
 import json, os, shutil, subprocess, sys, glob
 SRC = sys.argv[1] if len(sys.argv) > 1 else "/tmp/seeded_out"
-WT = "/tmp/val_wt"
+WT = os.environ.get("VAL_WT", "/tmp/val_wt")
 subprocess.run(["git", "-C", "/repo", "worktree", "remove", "--force", WT], capture_output=True)
 subprocess.run(["git", "-C", "/repo", "worktree", "add", "-q", WT, "HEAD"], check=True)
 env = dict(os.environ, PYTHONPATH=WT, PYTHONDONTWRITEBYTECODE="1")
@@ -44,4 +44,4 @@ for d in sorted(glob.glob(os.path.join(SRC, "C*", "C*_*"))):
                  "git apply patch.diff; same demo: rc=%d" % rc1, "python3 /verif/tools/run_baseline.py <wt>: rc=%d %s" % (base.returncode, base.stdout.strip().splitlines()[0] if base.stdout.strip() else "")])
         json.dump(meta, open(os.path.join(dst, "meta.json"), "w"), indent=1)
 subprocess.run(["git", "-C", "/repo", "worktree", "remove", "--force", WT])
-json.dump(results, open("/tmp/seed_validation.json", "w"), indent=1)
+json.dump(results, open(os.environ.get("VAL_OUT", "/tmp/seed_validation.json"), "w"), indent=1)
